@@ -78,6 +78,9 @@ let poutcome o = Buffer.add_char buf '('; pz o.o_status; sp (); plist pzs o.o_li
 let pair_of f g = function L [a; b] -> (f a, g b) | _ -> failwith "pair"
 let pk7 f = Buffer.add_char buf '('; pbytes f.k_name; sp (); pbytes f.k_ext; sp (); pz f.k_kind; sp (); pz f.k_mode; sp (); plist pbytes f.k_chunks; Buffer.add_char buf ')'
 
+let lexeme_of = function
+  | L [I 0; w] -> LKeyword (zs_of w) | L [I 1; t] -> LText (zs_of t)
+  | L [I 2; t; c] -> LString (zs_of t, bool_of c) | L [I 3; c] -> LDelim (z_of c) | _ -> failwith "lexeme"
 let input_of = function L [st; txt] -> (bool_of st, zs_of txt) | _ -> failwith "input"
 
 let dispatch (cmd : string) (args : sx list) : unit =
@@ -95,6 +98,17 @@ let dispatch (cmd : string) (args : sx list) : unit =
   | "k7_decode", [raw] -> popt (plist pk7) (k7_decode (zs_of raw))
   | "doc_entry", [src; content] -> pk7 (doc_entry (zs_of src) (zs_of content))
   | "doc_path", [src] -> pzs (doc_path (zs_of src))
+  | "tokenize", [lines] -> (match tokenize_program (list_of zs_of lines) with Ok b -> Buffer.add_string buf "(0 "; pbytes b; Buffer.add_char buf ')' | Err e -> Buffer.add_string buf "(1 "; perr (Some e); Buffer.add_char buf ')')
+  | "lst_to_ascii", [lines] -> pbytes (lst_to_ascii (list_of zs_of lines))
+  | "ascii_to_lst", [dos; data] -> pbytes (ascii_to_lst (bool_of dos) (zs_of data))
+  | "detok", [img] -> popt (plist (fun (n, t) -> Buffer.add_char buf '('; pz n; sp (); pzs t; Buffer.add_char buf ')')) (detok (zs_of img))
+  | "records", [img] -> popt (plist (fun (n, t) -> Buffer.add_char buf '('; pz n; sp (); pbytes t; Buffer.add_char buf ')')) (program_records (zs_of img))
+  | "uos", [t] -> pzs (upper_outside_strings false (zs_of t))
+  | "line_parts", [l] -> Buffer.add_char buf '('; pz (line_number (zs_of l)); sp (); pzs (line_text (zs_of l)); Buffer.add_char buf ')'
+  | "ref_encode", [lx] -> pbytes (ref_encode (list_of lexeme_of lx))
+  | "ref_source", [lx] -> pzs (ref_source (list_of lexeme_of lx))
+  | "readlines_file", [t] -> plist pzs (readlines_file (zs_of t))
+  | "readlines_stdin", [t] -> plist pzs (readlines_stdin (zs_of t))
   | _ -> failwith ("unknown command " ^ cmd)
 
 let () =
